@@ -15,7 +15,49 @@ import (
 // instance, compares, runs further steps on the restored instance and shuts it down.
 // Returns whether the cycle was a non-trivial backup case.
 func (w *World) storeLoadCycle(t *rapid.T, st *ev.Stats, checkAlloc bool) (nontrivial bool) {
-	i := w.drawOpenSnap(t)
+	return w.storeLoadCycleOf(t, st, checkAlloc, w.drawOpenSnap(t), false)
+}
+
+// oldSnapshotBackup builds the shape in which a backup's snapshot is the oldest open one and younger,
+// already closed snapshots hold deletes of its items: delete some of its keys, seal, close the younger
+// snapshot(s), then back it up handing over the last reference.
+func (w *World) oldSnapshotBackup(t *rapid.T, st *ev.Stats, checkAlloc bool) bool {
+	open := w.OpenSnaps()
+	if len(open) == 0 {
+		t.Skip("no open snapshot")
+	}
+	i := open[0]
+	s := w.snaps[i]
+	if len(s.content) == 0 || s.refs-w.pinned[i] <= 0 {
+		t.Skip("oldest snapshot empty")
+	}
+	n := rapid.IntRange(1, 6).Draw(t, "olddeletes")
+	wi := w.drawWriter(t)
+	for j := 0; j < n; j++ {
+		c := s.content[rapid.IntRange(0, len(s.content)-1).Draw(t, "oldkey")]
+		k := w.cfg.keyOf([]byte(c))
+		if w.live[k] != nil {
+			w.Delete(wi, w.probeFor([]byte(k)))
+		}
+	}
+	if len(w.OpenSnaps()) < 8 {
+		w.NewSnapshot()
+	}
+	// close every snapshot younger than s, and all but one reference of s
+	for j := range w.snaps {
+		if j != i {
+			for w.snaps[j].refs-w.pinned[j] > 0 {
+				w.Close(j)
+			}
+		}
+	}
+	for s.refs-w.pinned[i] > 1 {
+		w.Close(i)
+	}
+	return w.storeLoadCycleOf(t, st, checkAlloc, i, true)
+}
+
+func (w *World) storeLoadCycleOf(t *rapid.T, st *ev.Stats, checkAlloc bool, i int, forceConsume bool) (nontrivial bool) {
 	s := w.snaps[i]
 	nitro.DiskBlockSize = []int{512 * 1024, 64, 16}[rapid.IntRange(0, 2).Draw(t, "blocksize")]
 	defer func() { nitro.DiskBlockSize = 512 * 1024 }()
@@ -46,7 +88,8 @@ func (w *World) storeLoadCycle(t *rapid.T, st *ev.Stats, checkAlloc bool) (nontr
 	latest := i == len(w.snaps)-1 && len(w.live) == len(s.content)
 	dir := ScratchDir()
 	defer os.RemoveAll(dir)
-	err := w.Store(i, dir, conc, mutateAt, script)
+	consume := s.refs-w.pinned[i] > 0 && (forceConsume || rapid.Bool().Draw(t, "consume"))
+	err := w.Store2(i, dir, conc, mutateAt, script, consume)
 	if err != nil {
 		st.Class("store-returned-error", 1)
 		w.logf("store error: %v", err)
@@ -124,6 +167,15 @@ func TestC05(t *testing.T) {
 		}
 		acts["backup"] = cycle
 		acts["backup_b"] = cycle
+		acts["backup_old"] = func(t *rapid.T) {
+			if cycles >= 3 {
+				t.Skip("enough backups")
+			}
+			cycles++
+			if w.oldSnapshotBackup(t, st, false) {
+				nontrivial = true
+			}
+		}
 		acts[""] = func(t *rapid.T) {}
 		t.Repeat(acts)
 		if cycles == 0 {
